@@ -252,7 +252,7 @@ func Resolve(c tcell.Color, caps Caps) []vt.Color {
 	if h := c.Hex(); h >= 0 {
 		return nearest(h, n)
 	}
-	return def
+	return nil // a "valid" colour without any value: what it shows is not specified
 }
 
 // Expect computes the display a conforming terminal must show.
@@ -373,9 +373,9 @@ func Compare(t *vt.Term, want []Want, w, h int) string {
 				bad = fmt.Sprintf("shows %q (width %d), want %q (width %d)", c.R, c.Wide, e.R, e.Wide)
 			case c.Comb != e.Comb:
 				bad = fmt.Sprintf("combining %+q, want %+q", c.Comb, e.Comb)
-			case !e.NoColor && !inSet(p.Fg, e.Fg):
+			case !e.NoColor && e.Fg != nil && !inSet(p.Fg, e.Fg):
 				bad = fmt.Sprintf("foreground %v, want one of %v", p.Fg, e.Fg)
-			case !e.NoColor && !inSet(p.Bg, e.Bg):
+			case !e.NoColor && e.Bg != nil && !inSet(p.Bg, e.Bg):
 				bad = fmt.Sprintf("background %v, want one of %v", p.Bg, e.Bg)
 			case p.Bold != e.Bold || p.Blink != e.Blink || p.Dim != e.Dim || p.Italic != e.Italic || p.Strike != e.Strike:
 				bad = fmt.Sprintf("attributes bold=%v blink=%v dim=%v italic=%v strike=%v, want %v %v %v %v %v", p.Bold, p.Blink, p.Dim, p.Italic, p.Strike, e.Bold, e.Blink, e.Dim, e.Italic, e.Strike)
@@ -383,7 +383,7 @@ func Compare(t *vt.Term, want []Want, w, h int) string {
 				bad = fmt.Sprintf("reverse=%v, want %v", p.Reverse, e.Reverse)
 			case p.UL != e.UL:
 				bad = fmt.Sprintf("underline style %d, want %d", p.UL, e.UL)
-			case e.UL != 0 && !inSet(p.Ul, e.Ul):
+			case e.UL != 0 && e.Ul != nil && !inSet(p.Ul, e.Ul):
 				bad = fmt.Sprintf("underline colour %v, want one of %v", p.Ul, e.Ul)
 			case !e.LinkAny && (p.Link != e.Link || p.LinkID != e.LinkID):
 				bad = fmt.Sprintf("hyperlink %q (%q), want %q (%q)", p.Link, p.LinkID, e.Link, e.LinkID)
